@@ -835,6 +835,10 @@ def rv_str(rv):
 # --------------------------------------------------------------------------
 
 
+STRUCTURAL_TRAITS = ('std::fmt::Debug', 'std::fmt::Display', 'std::hash::Hash', 'std::cmp::PartialEq', 'std::cmp::Eq',
+                     'std::cmp::PartialOrd', 'std::cmp::Ord', 'std::clone::Clone', 'std::default::Default')
+
+
 class Facts:
     def __init__(self, path, cfg):
         with open(path) as f:
@@ -860,10 +864,12 @@ class Facts:
                 self.closures_of[b.root].append(b)
         # CHA: trait item path -> impl item paths
         self.impl_items_of = defaultdict(list)
+        self.impl_items_by_adt = defaultdict(list)
         for im in self.impls:
             for it in im['items']:
                 if it['trait_item']:
                     self.impl_items_of[it['trait_item']].append(it['path'])
+                    self.impl_items_by_adt[it['trait_item']].append((im.get('self_adt'), it['path']))
         self._callers = None
 
     # ---- lookup ------------------------------------------------------------
@@ -906,23 +912,41 @@ class Facts:
 
     # ---- P1 call graph ----------------------------------------------------------
     def callee_targets(self, site, cha=True):
-        """def paths of local bodies a call may enter (resolved, else CHA)"""
+        """def paths of local bodies a call may enter.
+        resolved to a local item      -> that item (+ impl overrides when it is a trait default on a generic self)
+        resolved to an external item  -> local impls of the same trait method whose self type is mentioned in the
+                                         call's self/generic arguments (external generic code calling back)
+        unresolved                    -> the declared item if it has a body + every impl (class-hierarchy analysis)"""
         c = site.callee
         if c is None:
             return []
         out = []
-        if c.resolved and c.rkind == 'item' and c.resolved in self.bodies:
-            # resolved to a provided method of a trait: the call may still be
-            # overridden only if self type is a param; try_resolve returns the
-            # default body then -- add impl overrides too
-            out.append(c.resolved)
-            if cha and c.trait and c.resolved == c.defp:
-                out.extend(p for p in self.impl_items_of.get(c.defp, []) if p in self.bodies)
+        if c.resolved and c.rkind == 'item':
+            if c.resolved in self.bodies:
+                out.append(c.resolved)
+                if cha and c.trait and c.resolved == c.defp:
+                    out.extend(p for p in self.impl_items_of.get(c.defp, []) if p in self.bodies)
+                return out
+            if cha and c.trait:
+                mention = ' '.join([c.self_ty or ''] + list(c.args or []))
+                for adt, p in self.impl_items_by_adt.get(c.defp, []):
+                    if p in self.bodies and (adt is None or adt in mention):
+                        out.append(p)
+            return out
+        if c.resolved and c.rkind not in (None, 'virtual'):
             return out
         if c.defp in self.bodies:
             out.append(c.defp)
         if cha and c.trait:
-            out.extend(p for p in self.impl_items_of.get(c.defp, []) if p in self.bodies)
+            if c.trait in STRUCTURAL_TRAITS:
+                # a structural std trait called on a type built from type parameters only: the concrete
+                # instantiation is accounted for at the caller that fixed the parameters (case 2 above)
+                mention = ' '.join([c.self_ty or ''] + list(c.args or []))
+                for adt, p in self.impl_items_by_adt.get(c.defp, []):
+                    if p in self.bodies and adt is not None and adt in mention:
+                        out.append(p)
+            else:
+                out.extend(p for p in self.impl_items_of.get(c.defp, []) if p in self.bodies)
         return out
 
     def call_graph(self, cha=True):
